@@ -627,6 +627,9 @@ impl World for ByValueWorld {
     fn sweep_len() -> u64 {
         sweep_cases().len() as u64
     }
+    fn sweep_names() -> Vec<String> {
+        sweep_cases().into_iter().map(|(n, _)| n).collect()
+    }
     fn sweep_case(i: u64) -> Option<FCase> {
         sweep_cases().into_iter().nth(i as usize).map(|(_, c)| c)
     }
